@@ -455,6 +455,10 @@ def gen_l5(rng, tier):
             addr, bank = 1 << rng.randrange(18), 1 << rng.randrange(7)
         else:
             addr, bank = (1 << 18) - 1, rng.choice([15, 127])
+        if rng.random() < 0.1:
+            addr = 0               # all-zero operand / row / column
+        if rng.random() < 0.05:
+            bank = 0
         if k == "ZQC":
             bank = rng.choice([0, 0, 1, 1, 2, 2, 3, rng.getrandbits(7)])
             if bank == 0 and rng.random() < 0.3:
@@ -484,6 +488,10 @@ def gen(rng, tier, index):
             addr, bank = 1 << rng.randrange(17), 1 << rng.randrange(6)
         else:
             addr, bank = (1 << 17) - 1, rng.choice([7, 63])
+        if rng.random() < 0.1:
+            addr = 0               # all-zero operand / row / column
+        if rng.random() < 0.05:
+            bank = 0
         if k == "ZQC":
             bank = rng.choice([0, 0, 1, 1, 2, rng.getrandbits(6)])
         c = {"cyc": t // 8, "ph": t % 8, "k": k, "bank": bank, "addr": addr}
